@@ -138,7 +138,7 @@ func init() {
 		"+race variants: a report counts only when both accesses are attributed (innermost frame outside runtime and standard library) to gnet packages; a pair of accesses is reported when unordered, the racy interleaving itself need not occur; code that no run reaches is not judged",
 		"+race variants: Engine.Register under the default Round-Robin policy is documented as racy by gnet; plans that call it (or dial through one Client from several goroutines) use least-connections there")
 	props["C05"].variantsQ = []string{"default", "poll_opt", "default+race"}
-	props["C05"].variantsT = []string{"default", "default+small", "poll_opt", "gc_opt", "default+race", "default+small+race", "poll_opt+race"}
+	props["C05"].variantsT = []string{"default", "default+small", "poll_opt", "gc_opt", "default+race", "default+small+race", "poll_opt+race", "gc_opt+race"}
 	// build flavour +small (3 requests per loop round, urgent-queue threshold 8, 4 iovecs per
 	// writev, 2-event lists): the thresholds of the poller and of the write path are reachable
 	for _, id := range []string{"C02", "C03", "C06"} {
